@@ -82,6 +82,29 @@ def seq_script(rng, sid):
     return {"id": sid, "ops": ops}
 
 
+def rollover_script(rng, sid):
+    """locks (with and without timeout) taken first; then ordinary Puts on the same DMap roll every fragment over into new
+    tables, so the lock entries sit in older, read-only tables: they are still held (a competitor is refused), the holder's
+    Lease and Unlock still work"""
+    d = "c08r%d" % sid
+    ops = []
+    toks = []
+    for n in range(10):
+        k = dmaplib.hx("R%d" % n)
+        t = "%s-h%d" % (d, n)
+        ops.append({"op": "lock", "c": rng.choice(LPATHS), "d": d, "k": k, "ms": 0 if n % 2 else 3600000, "dl": 30, "tok": t})
+        toks.append((k, t))
+    for i in range(70):
+        ops.append({"op": "put", "c": rng.choice(["emb@owner", "cc"]), "d": d, "k": dmaplib.hx("fill%02d" % i), "v": dmaplib.hx("f" * 70)})
+    for n, (k, t) in enumerate(toks):
+        ops.append({"op": "lock", "c": rng.choice(LPATHS), "d": d, "k": k, "ms": 0, "dl": 30, "tok": "%s-x%d" % (d, n)})   # held: refused
+        ops.append({"op": "dump", "d": d, "k": k})
+        ops.append({"op": "lease", "tok": t, "ms": 3600000})
+        ops.append({"op": "unlock", "tok": t})
+        ops.append({"op": "unlock", "tok": "%s-x%d" % (d, n)})
+    return {"id": sid, "ops": ops}
+
+
 def gen_seq_groups(res):
     cfgs = [{"members": 3, "replicas": 2, "partitions": 7, "table": 4096, "evict_workers": 1}]
     if res.tier == "thorough":
@@ -94,6 +117,12 @@ def gen_seq_groups(res):
             scs.append(seq_script(vlib.rng_for(res.seed, PID, "seq", sid), sid))
             sid += 1
         groups.append((cfg, scs))
+    # fragments of several tables (256-byte tables)
+    scs = []
+    for i in range(1 if res.tier == "quick" else 4):
+        scs.append(rollover_script(vlib.rng_for(res.seed, PID, "roll", sid), sid))
+        sid += 1
+    groups.append(({"members": 2, "replicas": 2, "partitions": 3, "table": 256, "evict_workers": 1}, scs))
     return groups
 
 
